@@ -17,6 +17,10 @@ pub enum Strategy {
     Keywordish,
 }
 
+pub fn uses_of_val(v: &Val, out: &mut BTreeSet<Bid>) {
+    uses_val(v, out)
+}
+
 fn uses_val(v: &Val, out: &mut BTreeSet<Bid>) {
     match v {
         | Val::Var(b) => {
